@@ -151,6 +151,9 @@ func exhaustiveTable() []caseDef {
 			c.FlakyServer = true
 			c.FlakyCloseDelimited = true
 			add(c)
+			c = base("updater.GetFile(signed, first attempt delivers wrong bytes)", shared.OpGetFile, st, tmpSandbox)
+			c.Verify, c.CorruptFirst = true, true
+			add(c)
 			for _, status := range []int{206, 202, 204} {
 				c = base("updater.GetFile(first attempt answered with another 2xx status)", shared.OpGetFile, st, tmpSandbox)
 				c.FirstStatus = status
